@@ -1,5 +1,5 @@
 (* Dispatcher for C01: dft2 / idft2 on the group ring Q(i)[C_L]; the case supplies L. *)
-From LV Require Import Lib.Codec Model.Dft.
+From LV Require Import Lib.Codec Model.Dft Model.DftOut.
 Require Import ExtrOcamlBasic.
 
 Definition pout (L : nat) : parser (option (dtype * arr (GRS L))) :=
@@ -24,10 +24,10 @@ Definition run (inp : list Z) : list Z :=
       | None => emalformed end
     else if op =? 2 then
       match pall (f <- parr L ;; ar <- pQ ;; ac <- pQ ;; M <- pZ ;; N <- pZ ;; shr <- pQ ;; shc <- pQ ;;
-                  un <- pbool ;; pret (f, ar, ac, M, N, shr, shc, un)) rest with
-      | Some (f, ar, ac, M, N, shr, shc, un) =>
+                  un <- pbool ;; o <- pout L ;; pret (f, ar, ac, M, N, shr, shc, un, o)) rest with
+      | Some (f, ar, ac, M, N, shr, shc, un, o) =>
           if (M <=? 0) || (N <=? 0) then emalformed else
-          0 :: earr L (idft2 (S := GRS L) sq f ar ac M N shr shc un)
+          eresult (earr L) (idft2_out (S := GRS L) sq o f ar ac M N shr shc un)
       | None => emalformed end
     else if op =? 3 then      (* round trip over one full period: idft2 (dft2 f), alpha = 1/shape *)
       match pall (f <- parr L ;; un <- pbool ;; pret (f, un)) rest with
